@@ -17,6 +17,7 @@ import (
 	"strconv"
 	"strings"
 	"sync"
+	"sync/atomic"
 	"testing"
 	"testing/synctest"
 	"time"
@@ -408,6 +409,91 @@ func TestVerifC13(t *testing.T) {
 				c.Close()
 			}()
 		}
+	}
+
+	// ---- inside the connection (REAL time): the caller of an unbatched request has written it and is about to count it
+	// when the reader fails the connection (its own deadline operation failed). Whatever the connection's bookkeeping is
+	// doing at that moment, the caller comes back: with its answer, a retry's answer, or - once its context ends - the
+	// context's error.
+	for rep2 := 0; rep2 < 2; rep2++ {
+		func() {
+			name := fmt.Sprintf("inside-the-connection/reader-fails-while-the-caller-sits-between-write-and-count/%d", rep2)
+			tr := &verifsim.Trace{}
+			cl := verifsim.NewCluster(tr)
+			cl.AddServer("ms")
+			cl.AddServer("rs1")
+			cl.CreateTable("t", nil, []string{"rs1"})
+			var failNext atomic.Bool
+			cl.ConnHook = func(op verifsim.Op) *verifsim.Fault {
+				if op.Kind == verifsim.OpReadDeadline && op.Time.IsZero() && failNext.CompareAndSwap(true, false) {
+					return &verifsim.Fault{Err: verifsim.ErrInjected}
+				}
+				return nil
+			}
+			hold := make(chan struct{})
+			var held atomic.Bool
+			cl.Rules = append(cl.Rules, func(_ *verifsim.Cluster, rs *verifsim.RS, sc *verifsim.ServerConn, req *verifsim.Request, rn []byte) *verifsim.Directive {
+				if string(verifsim.RowOf(req)) == "k1" && held.CompareAndSwap(false, true) {
+					return &verifsim.Directive{Hold: hold}
+				}
+				return nil
+			})
+			c := newSimClient(cl, RpcQueueSize(1))
+			g0, _ := hrpc.NewGet(context.Background(), []byte("t"), []byte("warm"))
+			c.Get(g0)
+			go func() {
+				g1, _ := hrpc.NewGet(context.Background(), []byte("t"), []byte("k1"))
+				c.Get(g1)
+			}()
+			for i := 0; i < 500 && !held.Load(); i++ {
+				time.Sleep(10 * time.Millisecond)
+			}
+			parked, release := make(chan struct{}), make(chan struct{})
+			var once atomic.Bool
+			simSetRegionHook(func(point string, rc any, arg any) {
+				if r, ok := rc.(hrpc.RegionClient); ok && r.Addr() == "rs1" && point == "send.written" && once.CompareAndSwap(false, true) {
+					close(parked)
+					select {
+					case <-release:
+					case <-time.After(5 * time.Second):
+					}
+				}
+			})
+			ctx, cancel := context.WithCancel(context.Background())
+			defer cancel()
+			done := make(chan error, 1)
+			go func() {
+				g2, _ := hrpc.NewGet(ctx, []byte("t"), []byte("k2"))
+				_, err := c.Get(g2)
+				done <- err
+			}()
+			ok := held.Load()
+			select {
+			case <-parked:
+			case <-time.After(5 * time.Second):
+				ok = false
+			}
+			if !ok {
+				rep.bad("harness:c13-conn", "%s: the schedule could not be set up", name)
+			}
+			failNext.Store(true)
+			close(hold) // k1 is answered: the reader brings the count to zero, its clearing of the read deadline fails
+			time.Sleep(200 * time.Millisecond)
+			close(release)
+			simSetRegionHook(nil)
+			time.Sleep(200 * time.Millisecond)
+			cancel()
+			select {
+			case <-done:
+			case <-time.After(3 * time.Second):
+				rep.bad("cancel-ignored:inside-the-connection", "%s: the get is still blocked 3 s after its context was cancelled; it had written its request when the "+
+					"reader failed the connection", name)
+			}
+			rep.Scenarios++
+			rep.Distinct++
+			c.Close()
+			time.Sleep(100 * time.Millisecond)
+		}()
 	}
 }
 
